@@ -82,11 +82,11 @@ static void reset_monitor(uint8_t* buf) { g_buf = buf; vs_calls = 0; vs_truncate
 #define ARBITRARY_STATE(store) \
   h_init(); reset_monitor(h_ssb_buf()); vs_store = (store); \
   IN_U64(filled); IN_U64(limit); \
-  ASSUME(filled <= limit && limit <= BUFLEN - 1); \
+  ASSUME(filled <= BUFLEN - 1 && limit <= BUFLEN - 1);   /* since the fix of KF-C14-1 a limit below the fill level is a legal state: nothing is appended in it */ \
   h_ssb_setup(filled, limit, (store) != 0); ghost_term = filled
 #define INVARIANT_AGAIN() do { \
   uint64_t f2 = h_ssb_filled(), l2 = h_ssb_limit(); OBSERVE(f2); OBSERVE(l2); \
-  CHECK(f2 <= l2 && l2 <= BUFLEN - 1, "after the operation: fill position <= write limit <= 4095"); \
+  CHECK(f2 <= BUFLEN - 1 && l2 <= BUFLEN - 1 && (f2 <= l2 || f2 <= filled), "after the operation: fill position and write limit stay inside the buffer, and text never grows past the limit"); \
   ASSUME(f2 < BUFLEN); \
   if (vs_store) CHECK(h_ssb_at(f2) == 0, "after the operation: the text is terminated at the fill position"); \
   else CHECK(f2 == ghost_term, "after the operation: the fill position is where the text was terminated last"); } while (0)
@@ -101,12 +101,12 @@ static void body_harness_step_add(const int KIND) {
   }
   INVARIANT_AGAIN();
   uint64_t f2 = h_ssb_filled();
-  if (filled == limit) {
-    CHECK(vs_calls == 0 && f2 == filled, "a full buffer is left alone");
+  if (filled >= limit) {
+    CHECK(vs_calls == 0 && f2 == filled, "a buffer filled up to (or beyond) its write limit is left alone");
   } else {
     CHECK(vs_calls == 1, "one formatting call per add");
     CHECK(vs_first_off == filled, "new text is appended at the fill position");
-    CHECK(vs_last_room <= limit - filled, "new text may not pass the write limit");
+    CHECK(vs_last_room <= (limit >= filled ? limit - filled : 0), "new text may not pass the write limit");
     uint64_t want = filled + vs_last_len; if (want > limit) want = limit;
     CHECK(f2 == want, "fill position advances by the text length, truncated at the write limit");
   }
@@ -124,8 +124,8 @@ HARNESS(harness_step_dump) {
   INVARIANT_AGAIN();
   OBSERVE(vs_calls);
   CHECK(h_ssb_filled() >= filled && h_ssb_limit() == limit, "a memory dump only appends");
-  CHECK(vs_max_end <= limit, "no dump line passes the write limit");
-  CHECK(n == 0 ? vs_calls == 0 : (vs_calls > 0 || filled == limit), "an empty block dumps nothing, a non-empty one something unless the buffer is full");
+  CHECK(vs_max_end <= limit || filled >= limit, "no dump line passes the write limit");
+  CHECK(n == 0 ? vs_calls == 0 : (vs_calls > 0 || filled >= limit), "an empty block dumps nothing, a non-empty one something unless the buffer is full");
   WITNESS("end");
 }
 HARNESS(harness_step_limits) {
@@ -164,7 +164,7 @@ HARNESS(harness_base) {
 /* ------------------------------------------------------------------ report protocol: start; K leaks; stop */
 #define MLB_INVARIANT() do { \
   uint64_t f2 = h_mlb_filled(), l2 = h_mlb_limit(); \
-  CHECK(f2 <= l2 && l2 <= BUFLEN - 1, "report buffer: fill position <= write limit <= 4095"); \
+  CHECK(f2 <= BUFLEN - 1 && l2 <= BUFLEN - 1, "report buffer: fill position and write limit stay inside the buffer (<= 4095)"); \
   CHECK(f2 == ghost_term, "report buffer: the fill position is where the text was terminated last"); } while (0)
 #ifndef LEAKMAX
 #define LEAKMAX 2
@@ -172,7 +172,7 @@ HARNESS(harness_base) {
 #define MLB_ARBITRARY_STATE() \
   h_init(); reset_monitor(h_mlb_buf()); vs_store = 0; \
   IN_U64(filled); IN_U64(limit); IN_U64(staleTotal); IN_BOOL(staleWarn); \
-  ASSUME(filled <= limit && limit <= BUFLEN - 1); \
+  ASSUME(filled <= BUFLEN - 1 && limit <= BUFLEN - 1);   /* since the fix of KF-C14-1 a limit below the fill level is a legal state: nothing is appended in it */ \
   h_mlb_setup(filled, limit, staleTotal, staleWarn); ghost_term = filled    /* any history of misuse messages and earlier reports */
 
 static void body_harness_report(const int K, const int CLEARED) {
@@ -210,6 +210,9 @@ static void body_harness_report(const int K, const int CLEARED) {
     if (CLEARED) CHECK(n_noleaks == 1 && !cut_noleaks, "no leaks, cleared buffer: the message is complete");
   } else {
     CHECK(h_mlb_limit() == BUFLEN - 1, "the write limit is restored for the footer");
+    /* the footer reserve only exists when the text did not already lie beyond the lowered limit (always true from a
+     * cleared buffer, i.e. at the start of every test); otherwise only safety is required, checked above */
+    if (CLEARED || filled <= lowered) {
     CHECK(n_footer == 1 && footer_value == K, "the footer states the true total number of leaks");
     CHECK(!cut_footer, "the footer always fits");
     CHECK(!dropped || n_toomuch == 1, "dropped entries: the report says so");
@@ -217,6 +220,7 @@ static void body_harness_report(const int K, const int CLEARED) {
     CHECK(!cut_toomuch, "the too-many notice always fits");
     CHECK(n_warning == anyMalloc, "the malloc note appears iff a malloc leak was reported");
     CHECK(!cut_warning, "the malloc note always fits");
+    }
     CHECK(n_noleaks == 0, "leaks: no all-clear message");
   }
   WITNESS("end");
@@ -232,8 +236,8 @@ HARNESS(harness_misuse) {
   MLB_INVARIANT();
   OBSERVE(h_mlb_filled());
   CHECK(fail_calls == 1 && fail_off == 0, "the misuse is reported once, with the buffer text");
-  CHECK(vs_max_end <= limit && h_mlb_limit() == limit && h_mlb_filled() >= filled, "misuse text is appended within the write limit");
-  CHECK(vs_calls == 3 || h_mlb_filled() == limit, "three lines (what happened, where allocated, where freed) unless the buffer is full");
+  CHECK((vs_max_end <= limit || filled >= limit) && h_mlb_limit() == limit && h_mlb_filled() >= filled, "misuse text is appended within the write limit");
+  CHECK(vs_calls == 3 || h_mlb_filled() >= limit, "three lines (what happened, where allocated, where freed) unless the buffer is full");
   WITNESS("end");
 }
 
